@@ -995,6 +995,18 @@ def move_imports_to_toplevel(source: str) -> str:
         for node in core.walk(root, (ast.FunctionDef, ast.AsyncFunctionDef, ast.ClassDef))
     )
 
+    # Names that different imports bind to different things (try: import a as x / except: import b as x)
+    import_origins = collections.defaultdict(set)
+    for node in all_imports:
+        for alias in node.names:
+            bound_name = (alias.asname or alias.name).split(".")[0]
+            imported = alias.name if alias.asname or isinstance(node, ast.ImportFrom) else bound_name
+            origin = (getattr(node, "module", None), getattr(node, "level", 0), imported)
+            import_origins[bound_name].add(origin)
+    otherwise_bound_names.update(
+        name for name, origins in import_origins.items() if len(origins) > 1
+    )
+
     imports_movable_to_toplevel = {
         node
         for node in all_imports - toplevel_imports
